@@ -305,7 +305,10 @@ def apply_plan(full, info, plan, conc):
     elif kind == 'SegOverMax':
         m = n['rep']
         have = 1
-        j = si
+        while si > 0 and info[si - 1][0] == nid:          # the plan may sit on a later occurrence of the run: count the whole run
+            si -= 1
+            have += 1
+        j = si + have - 1
         while j + 1 < len(info) and info[j + 1][0] == nid:
             j += 1
             have += 1
@@ -331,8 +334,14 @@ def apply_plan(full, info, plan, conc):
         while j < len(info) and info[j][0] and inside(info[j][0]) and info[j][0] != nid:
             j += 1
         inst = info[si:j]
-        # how many instances are already there in a row
+        # how many instances are already there in a row (behind this one ...
         have = 1
+        b = si
+        while b > 0 and info[b - 1][0] and (inside(info[b - 1][0]) or info[b - 1][0] == nid):
+            b -= 1
+            if info[b][0] == nid:
+                have += 1
+        # ... and after it)
         k = j
         while k < len(info) and info[k][0] == nid:
             have += 1
